@@ -27,7 +27,7 @@ def _links(sites):
 
 def h_disjoint(ctx, shape, reqs, groups, include_first=False, include_all=False):
     from gnpy.core.exceptions import DisjunctionError
-    from gnpy.topology.request import compute_path_dsjctn, correct_json_route_list, Disjunction
+    from gnpy.topology.request import compute_path_dsjctn, correct_json_route_list, Disjunction, deduplicate_disjunctions
     m = build_mesh(ctx, shape, symmetric_lengths=True)
     rqs = []
     inc = {}
@@ -43,12 +43,16 @@ def h_disjoint(ctx, shape, reqs, groups, include_first=False, include_all=False)
             inner = [x for x in m.sites if x not in (s, d)]
             opts = [((), ())] + [((f'roadm {x}',), (h,)) for x in inner for h in ('STRICT', 'LOOSE')] + \
                 [((f'roadm {d}', f'roadm {inner[0]}'), ('LOOSE', 'LOOSE'))]
+            if len(inner) >= 2:      # mixed hop types in one list
+                opts += [((f'roadm {inner[0]}', f'roadm {inner[1]}'), ('STRICT', 'LOOSE')),
+                         ((f'roadm {inner[1]}', f'roadm {inner[0]}'), ('LOOSE', 'STRICT'))]
             nodes, loose = ctx.choice(f'include of request {rid}', opts)
         inc[rid] = (list(nodes), list(loose))
         rqs.append(request(rid, s, d, nodes, loose))
     dis = [Disjunction(disjunction_id=f'g{j}', relaxable=False, link_diverse=True, node_diverse=True, disjunctions_req=list(g))
            for j, g in enumerate(groups)]
     correct_json_route_list(m.graph, rqs)
+    dis = deduplicate_disjunctions(dis)          # as planning() does before computing the paths
     try:
         paths = compute_path_dsjctn(m.graph, m.eqpt, rqs, dis)
         err = None
@@ -56,10 +60,15 @@ def h_disjoint(ctx, shape, reqs, groups, include_first=False, include_all=False)
         paths, err = None, e
     routes = {rid: site_paths(m, s, d) for rid, s, d in reqs}
 
-    def strict_ok(rid, sites):
+    def strict_ok(rid, sites, binding='all'):
+        """route crosses the include nodes in order; binding='strict_only': only the hops typed STRICT are binding (what the
+        statement demands of a returned route); 'all': every listed node as soon as one hop is STRICT (what the
+        implementation enforces, used for the existence oracle so that it never asks for more solutions than the code keeps)"""
         nodes, loose = inc[rid]
         if 'STRICT' not in loose:
             return True
+        if binding == 'strict_only':
+            nodes = [n for n, h in zip(nodes, loose) if h == 'STRICT']
         ids = elements_of(m, sites)
         j = 0
         for n in nodes:
@@ -79,7 +88,8 @@ def h_disjoint(ctx, shape, reqs, groups, include_first=False, include_all=False)
         return False
     info = dict(shape=shape, requests=reqs, groups=groups, include=inc)
     if err is not None:
-        if len(reqs) == 2 and len(groups) == 1:
+        mixed = any(len(set(l)) > 1 for _, l in inc.values())
+        if len(reqs) == 2 and len(groups) == 1 and not mixed:
             ctx.prove('disjunction error only when no disjoint pair exists', not exists_solution(), info=info)
         else:
             ctx.prove('computation stops with a disjunction error (no overlapping result returned)', True, info=info)
@@ -94,7 +104,7 @@ def h_disjoint(ctx, shape, reqs, groups, include_first=False, include_all=False)
         ctx.prove(f'request {rid}: a valid loop-free route between its transceivers', ok, info=dict(info, route=ids))
         if not ok:
             return
-        ctx.prove(f'request {rid}: STRICT include nodes respected', strict_ok(rid, sites), info=dict(info, route=ids))
+        ctx.prove(f'request {rid}: STRICT include nodes respected', strict_ok(rid, sites, 'strict_only'), info=dict(info, route=ids))
     for g in groups:
         for a, b in itertools.combinations(g, 2):
             shared = _links(got[a]) & _links(got[b])
@@ -113,6 +123,10 @@ CASES = [
     ('triple:mesh4:reverse_direction', 'mesh4', [('1', 'A', 'B'), ('2', 'A', 'B'), ('3', 'C', 'A')], [('1', '2', '3')], False),
     ('two_groups:ring4+chord', 'ring4+chord', [('1', 'B', 'D'), ('2', 'C', 'D'), ('3', 'B', 'A')], [('1', '2'), ('1', '3')], False),
     ('two_groups:mesh4', 'mesh4', [('1', 'B', 'D'), ('2', 'C', 'D'), ('3', 'B', 'A')], [('1', '2'), ('1', '3')], False),
+    # a group contained in another one, and the same group declared twice (deduplicate_disjunctions runs first)
+    ('nested_groups:mesh4', 'mesh4', [('1', 'A', 'B'), ('2', 'A', 'B'), ('3', 'C', 'A')], [('2', '3'), ('1', '2', '3')], False),
+    ('nested_groups:ring4+chord', 'ring4+chord', [('1', 'A', 'B'), ('2', 'A', 'B'), ('3', 'D', 'C')], [('1', '2', '3'), ('1', '2')], False),
+    ('duplicate_group:ring4', 'ring4', [('1', 'A', 'C'), ('2', 'A', 'C')], [('1', '2'), ('2', '1')], False),
 ]
 
 
